@@ -7,16 +7,16 @@ for d in "$dir"/*/; do
   n=$(basename "$d")
   [ -f "$d/patch.diff" ] || continue
   if [ $# -gt 0 ]; then case " $* " in *" $n "*) ;; *) continue;; esac; fi
-  cd /tmp/head && git checkout -q -- . && if ! git apply "$d/patch.diff" 2>/dev/null; then echo "== $n: patch does not apply"; continue; fi
+  cd /tmp/head && git checkout -q -- . && git clean -fdq && if ! git apply "$d/patch.diff" 2>/dev/null; then echo "== $n: patch does not apply"; continue; fi
   tmpd=$(mktemp -d)
   for p in $($BIN -list); do
     ( out=$(timeout 600 $BIN -property $p -repo /tmp/head -verif /verif -no-evidence 2>&1)
-      k=$(echo "$out" | grep '^BAD ' | head -1 | cut -c5- | cut -d'|' -f1)
+      k=$(echo "$out" | grep -E '^BAD |engine/undecided' | head -1 | cut -c5- | cut -d'|' -f1)
       [ -n "$k" ] && echo "$p:[$k]" > $tmpd/$p ) &
   done
   wait
   fired=$(cat $tmpd/* 2>/dev/null | tr '\n' ' ')
   rm -rf $tmpd
-  git checkout -q -- .
+  git checkout -q -- . && git clean -fdq
   if [ -n "$fired" ]; then echo "== $n: FIRED $fired" | cut -c1-400; else echo "== $n: MISSED"; fi
 done
